@@ -1,8 +1,12 @@
 #!/usr/bin/env bash
+# thorough tier of the given checks (default: all), one after the other, on /repo as it stands; the evidence of each
+# is kept in evidence-thorough/, and the quick evidence is written again afterwards.
 cd /verif
-for p in C14 C11 C12 C15 C13 C18 C16 C03; do
+list="${*:-C14 C11 C12 C15 C13 C18 C16 C03}"
+for p in $list; do
   /usr/bin/time -f "$p thorough wall %es" ./check $p thorough > /tmp/thorough_$p.log 2>&1; echo "$p exit=$?" >> /tmp/thorough_summary.log
   tail -4 /tmp/thorough_$p.log >> /tmp/thorough_summary.log
   cp evidence/$p.json evidence-thorough/$p.json
+  ./check $p quick > /tmp/q_$p.log 2>&1; echo "$p quick exit=$?" >> /tmp/thorough_summary.log
 done
 echo ALLDONE >> /tmp/thorough_summary.log
